@@ -269,7 +269,7 @@ func checkC09(c *Ctx) {
 	// explicit-state search
 	depth, maxStates := 5, 400000
 	if !c.Quick() {
-		depth, maxStates = 9, 6000000
+		depth, maxStates = 8, 3000000
 	}
 	st := bufferBFS(c, "C09/state", depth, maxStates, nil, func(s *buffer.Buffer, op *bufOp, s2 *buffer.Buffer, w *Worker) {
 		if d := c09StepInvariant(s, op, s2); d != "" {
